@@ -4,6 +4,8 @@ import CelmaVerif.Lemmas.RulesDest
 import CelmaVerif.Lemmas.RulesLevel
 import CelmaVerif.Lemmas.ParseSmall
 import CelmaVerif.Lemmas.ParseProps
+import CelmaVerif.Lemmas.SourcesSound
+import CelmaVerif.Lemmas.ParseRefuseWide
 /-
   C01 — command-line values reach their typed destinations, whatever the spelling.
 
@@ -360,5 +362,63 @@ example : ∃ us, SpellsPlus RulesExample.cfg us ["-q".toList, "-n".toList, "--"
     theorems apply to it -/
 example : SpellsPlus RulesExample.cfg RulesExample.jointUses RulesExample.jointWords :=
   spells_sub_spellsPlus RulesExample.joint_spells
+
+/-! ### Second audit follow-up -/
+
+/-- **What an accepted evaluation leaves in the destinations** — for EVERY accepted run (any argument
+    file, environment value and argv; no hypothesis on the configuration beyond one initial value per
+    argument): every destination holds `denote` of the values its argument was given, in the order the
+    evaluation logged them (`hf.uses`, which by `C02_parse_faithful(_sources)` is what the words spell,
+    and by `C01_spelling_unambiguous` is determined by the words). -/
+theorem C01_accepted_destinations (cfg : Cfg) (inits : List DVal) (hin : cfg.args.length ≤ inits.length)
+    (src : Sources) (argv : List Word) (hf : HState)
+    (he : evalArguments cfg (cfg.initState inits) src argv = .ok hf)
+    (i : Nat) (d : ArgDef) (v : DVal) (hi : cfg.args[i]? = some d) (hv : inits[i]? = some v)
+    (ht : d.kind = .vecInt → ∃ l, v = .vec l) :
+    ∃ st, hf.args[i]? = some st ∧ st.dest = denote d v (valsOf i hf.uses) :=
+  accepted_dests_denote hin he hi hv ht
+
+/-- **Unused destinations keep their value, for every accepted run** (the light form the second audit
+    asked for: none of the completeness hypotheses of `C01_unused_destination_kept`): after ANY accepted
+    evaluation, with or without sources, the destination of an argument that was given no value holds
+    its initial value. -/
+theorem C01_unused_destination_kept_any_run (cfg : Cfg) (inits : List DVal) (hin : cfg.args.length ≤ inits.length)
+    (src : Sources) (argv : List Word) (hf : HState)
+    (he : evalArguments cfg (cfg.initState inits) src argv = .ok hf)
+    (i : Nat) (d : ArgDef) (v : DVal) (hi : cfg.args[i]? = some d) (hv : inits[i]? = some v)
+    (ht : d.kind = .vecInt → ∃ l, v = .vec l) (hunused : valsOf i hf.uses = []) :
+    ∃ st, hf.args[i]? = some st ∧ st.dest = v := by
+  obtain ⟨st, h1, h2⟩ := accepted_dests_denote hin he hi hv ht
+  rw [hunused] at h2
+  exact ⟨st, h1, h2⟩
+
+/-- **The grammar is a function of the words**: the uses a command line spells are determined by its
+    words (so "the uses the words spell" in the theorems above is a definite description). -/
+theorem C01_spelling_unambiguous (cfg : Cfg) (ws : List Word) (us us' : List Use)
+    (h : SpellsPlus cfg us ws) (h' : SpellsPlus cfg us' ws) : us = us' :=
+  SpellsPlus_functional h h'
+
+/-- non-vacuity: `-q -n 5` accepted — the destination of `-o` (unused) keeps its initial value -/
+example : ∃ hf st, evalArguments RulesExample.cfg (RulesExample.cfg.initState RulesExample.inits) {}
+      ["p".toList, "-q".toList, "-n".toList, "5".toList] = .ok hf ∧ hf.args[2]? = some st ∧
+      st.dest = RulesExample.inits.getD 2 default := by
+  have hok : (evalArguments RulesExample.cfg (RulesExample.cfg.initState RulesExample.inits) {}
+      ["p".toList, "-q".toList, "-n".toList, "5".toList]).isOk = true := by decide +kernel
+  cases e : evalArguments RulesExample.cfg (RulesExample.cfg.initState RulesExample.inits) {}
+      ["p".toList, "-q".toList, "-n".toList, "5".toList] with
+  | ok hf =>
+    have hu : valsOf 2 hf.uses = [] := by
+      have := C01_accepted_is_what_the_words_spell RulesExample.cfg RulesExample.inits "p".toList _ hf e
+      obtain ⟨us, sp, hus, _⟩ := this
+      have sp2 : SpellsPlus RulesExample.cfg [⟨3, [], true⟩, ⟨1, "5".toList, true⟩] ["-q".toList, "-n".toList, "5".toList] :=
+        spells_sub_spellsPlus (.shortFlag (d := RulesExample.cfg.args.getD 3 default) (by decide) rfl rfl
+          (.shortVal (d := RulesExample.cfg.args.getD 1 default) (by decide) rfl (by decide) (by unfold PlainWord; decide) (.nil _)))
+      rw [hus, C01_spelling_unambiguous _ _ _ _ sp sp2]
+      decide
+    obtain ⟨st, h1, h2⟩ := C01_unused_destination_kept_any_run RulesExample.cfg RulesExample.inits (by decide) {} _ hf e
+      2 (RulesExample.cfg.args.getD 2 default) (RulesExample.inits.getD 2 default) rfl rfl (fun h => by cases h) hu
+    exact ⟨hf, st, rfl, h1, h2⟩
+  | throw x => rw [e] at hok; simp [Res.isOk] at hok
+  | oob x => rw [e] at hok; simp [Res.isOk] at hok
 
 end CelmaVerif.Props.C01
